@@ -195,6 +195,11 @@ class MemoryBank:
             r = yield _ReadMemoryLocation(addr)
             if r.raw_value is not None:
                 if r.raw_value.error:
+                    if use_latch and self.has_latch:
+                        # Don't leave the bank latched behind us
+                        yield _EnableWriteMemory(addr)
+                        yield _DTR0(addr, 2)
+                        yield _WriteMemoryLocationNoReply(addr, 0xFF)
                     raise ResponseError(
                         f"Framing error while reading memory bank "
                         f"{self.address} location {loc}"
